@@ -1396,9 +1396,11 @@ class SVG:
         # Simplify things that simplify in isolation
         self.apply_style_attributes(inplace=True)
         self.resolve_nested_svgs(inplace=True)
+        # Instantiate <use> before shapes are rewritten in their context: a target's
+        # own value for an inherited property must survive into the instance
+        self.resolve_use(inplace=True)
         self.shapes_to_paths(inplace=True)
         self.expand_shorthand(inplace=True)
-        self.resolve_use(inplace=True)
 
         # Simplify things that do not simplify in isolation
         self.simplify(inplace=True)
